@@ -5,8 +5,9 @@ import ast
 from typing import Optional
 
 from ..core import AnalysisError, FuncInfo, Project, attr_chain, const_int, const_str, expand, unparse, walk_local
-from ..intdec import (CAT_NAMES, SPEC_CUTS, LengthFacts, category, fmt_regions, literals_compared, regions,
-                      residual, residual_multi, sample_points, reachable_int_literals)
+from ..absint import PyRaise, Unknown
+from ..intdec import (CAT_NAMES, SPEC_CUTS, LengthFacts, category, closure_int_literals, fmt_regions, literals_compared,
+                      regions, residual, residual_multi, sample_points, reachable_int_literals)
 
 SUBJ = "<length>"
 
@@ -199,10 +200,54 @@ def _delegates_to(prj: Project, fi: FuncInfo, facts: LengthFacts) -> Optional[st
     return None
 
 
+def observe(prj, fi: FuncInfo, kind: str, v: int, subj_is_length: bool):
+    """outcome of the site for length v by abstract evaluation (external calls recorded as effects); raises Unknown"""
+    from ..evalsite import default_args, deep_strs, run_site
+    args, self_obj = default_args(prj, fi, v)
+    before = dict(self_obj.fields) if self_obj is not None else {}
+    run = run_site(prj, fi, args, self_obj=self_obj)
+    if run.raised is not None:
+        raise Unknown(f"raises {run.raised.name}")
+    if kind == "cells":
+        res = run.result
+        if not (isinstance(res, list) and len(res) == 4 and all(isinstance(x, int) and not isinstance(x, bool) for x in res)):
+            raise Unknown(f"result {res!r} is not a list of four integers")
+        return tuple((i, "Add", SUBJ if (subj_is_length and x == v) else str(x)) for i, x in enumerate(res) if x != 0)
+    everything = [run.result] + [a for _, aa, kw in run.effects for a in list(aa) + list(kw.values())]
+    if kind == "colour":
+        return tuple(sorted({c for c in deep_strs(everything) if c in COLOURS}))
+    if kind == "retsym":
+        return tuple(sorted({EMOJI[e] for st in deep_strs(run.result) for e in EMOJI if e in st}))
+    if kind == "sym":
+        return tuple(sorted({EMOJI[e] for st in deep_strs(everything) for e in EMOJI if e in st}))
+    if kind == "counters":
+        out = []
+        for k, val in self_obj.fields.items():
+            old = before.get(k)
+            if isinstance(val, int) and isinstance(old, int) and not isinstance(val, bool) and val != old:
+                out.append(k)
+        return tuple(sorted(out))
+    raise Unknown(f"no evaluation harness for {kind}")
+
+
 def check_site(ctx, prj, fi: FuncInfo, facts: LengthFacts, spec: dict, consts=None, inst: str = ""):
     pred = facts.subject_pred(fi)
-    lab = _labeller(spec["label"], pred)
-    lits = sorted(set(literals_compared(fi, pred, consts)) | reachable_int_literals(fi, pred))
+    lab0 = _labeller(spec["label"], pred)
+    evaluated = {"n": 0, "fallback": 0}
+    subj_is_length = spec["label"] == "cells" and spec["expect"](0)[0][2] == SUBJ
+
+    def lab(tree, v):
+        if consts is None and spec["label"] in ("cells", "colour", "retsym", "counters"):
+            try:
+                r = observe(prj, fi, spec["label"], v, subj_is_length)
+                evaluated["n"] += 1
+                return r
+            except (Unknown, PyRaise):
+                evaluated["fallback"] += 1
+        if tree is None:
+            tree, _ = residual(fi, pred, v, consts)
+        return lab0(tree, v)
+    lits = sorted(set(literals_compared(fi, pred, consts)) | reachable_int_literals(fi, pred) | closure_int_literals(prj, fi))
     key = fi.qual.split(":", 1)[1] + (f"<-{inst}" if inst else "")
     if not lits:
         d = _delegates_to(prj, fi, facts)
@@ -215,8 +260,7 @@ def check_site(ctx, prj, fi: FuncInfo, facts: LengthFacts, spec: dict, consts=No
     bad = None
     n = 0
     for v in pts:
-        tree, _ = residual(fi, pred, v, consts)
-        got = lab(tree, v)
+        got = lab(None, v)
         want = spec["expect"](category(v))
         n += 1
         if want is None:
@@ -548,23 +592,14 @@ def rule_R3(ctx, prj: Project):
 def rule_R4(ctx, prj: Project):
     ctx.rule("R4", "LanguageTotals.add takes hard_to_maintain from cell 2 and unmaintainable from cell 3 of "
                    "make_count_profile of the same entry (index <-> category agreement with the profile)", floor=2)
-    fi = prj.func("codelimit.common.LanguageTotals:LanguageTotals.add")
-    want = {"hard_to_maintain": 2, "unmaintainable": 3}
-    for n in fi.walk():
-        if isinstance(n, ast.AugAssign) and isinstance(n.target, ast.Attribute) and n.target.attr in want:
-            e = expand(fi, n.value)
-            attr = n.target.attr
-            if isinstance(e, ast.Subscript) and isinstance(e.value, ast.Call):
-                callee = prj.resolve_callee_name(fi, e.value)
-                idx = const_int(e.slice)
-                if callee.endswith(":make_count_profile") and idx == want[attr] and isinstance(n.op, ast.Add):
-                    ctx.ok("R4", fi.site(n), f"LanguageTotals.add: {attr} += make_count_profile(..)[{idx}]")
-                    continue
-                ctx.viol("R4", f"LanguageTotals.add/{attr}", fi.site(n),
-                         f"{attr} is increased by {unparse(e)}; required make_count_profile(entry.measurements())[{want[attr]}]")
-            else:
-                ctx.viol("R4", f"LanguageTotals.add/{attr}", fi.site(n),
-                         f"{attr} is increased by {unparse(e)}; required cell {want[attr]} of make_count_profile")
+    from ..symtotals import WANT, WORDS, describe, language_totals_add
+    inc, fi = language_totals_add(prj)
+    for attr in ("hard_to_maintain", "unmaintainable"):
+        if inc[attr].key() == WANT[attr].key():
+            ctx.ok("R4", fi.site(), f"LanguageTotals.add: {attr} += {WORDS[attr]} (symbolic effect of the method)")
+        else:
+            ctx.viol("R4", f"LanguageTotals.add/{attr}", fi.site(),
+                     f"{attr} is increased by {describe(inc[attr])}; required {WORDS[attr]}")
 
 
 def run(ctx, prj: Project):
